@@ -492,14 +492,14 @@ def shards(tier, seed):
     out.append(_sh("same2", "same2", _all("same2", S, D), tier, eps=E))
     out.append(_sh("inst", "inst", _all("inst", S, D), tier, eps=E))
     out.append(_sh("inst-noeps", "inst", _all("inst", S, D), tier))
-    out.append(_sh("inst-eps3", "inst", _all("inst", S, D), tier, eps="3"))
+    if not Q:
+        out.append(_sh("inst-eps3", "inst", _all("inst", S, D), tier, eps="3"))
+        out.append(_sh("mixed-noeps", "mixed", _all("mixed", S, D), tier))
     out.append(_sh("mixed", "mixed", _all("mixed", S, D), tier, eps=E))
-    out.append(_sh("mixed-noeps", "mixed", _all("mixed", S, D), tier))
     out.append(_sh("interm", "interm", _all("interm", S, 12 if Q else 40), tier, eps=E))
     if Q:
         # epsilon left to the conversion (extract_epsilon()/10 forks on gcds): fewer symbolic numerators
         out.append(_sh("chain-noeps-s1d1", "chain", dict(s1=[0, S], d1=[0, D]), tier))
-        out.append(_sh("chain-noeps-d0s1", "chain", dict(d0=[0, D], s1=[0, S]), tier))
         out.append(_sh("same2-noeps-d0s1", "same2", dict(d0=[0, D], s1=[0, S]), tier))
         out.append(_sh("timed-s0d0s1", "timed", dict(s0=[3, 13], d0=[0, 9], s1=[10, 25]), tier, eps=E))
         out.append(_sh("timed-s1d1", "timed", dict(s1=[8, 26], d1=[0, 12]), tier, eps=E))
